@@ -117,7 +117,12 @@ fn history(out: &mut Out, rng: &mut Rng, consensus: &Consensus, idx: u64, honest
     // lagging: two honest peers on one chain, the lower one proven first; the higher one is proven, then moves the store on through
     // the child fast path; only then the lower one proves a header between the last committed proof and the stored tip
     let lagging = idx % 8 == 1 && !competing && !deep;
-    let n_peers = if competing || deep || lagging { 2 } else { rng.range(1, 3) as usize };
+    // lagging fork: peer 2 is proven two blocks below the tip peer 1 brings, then switches to a heavier branch forking inside the
+    // remembered window; its request starts at its own earlier proof, so the honest answer's reorg section begins BELOW the
+    // remembered window while the fork point lies inside it
+    let lagfork = idx % 8 == 5 && !competing && !deep && !honest_only;
+    let last_n = if lagfork { *rng.pick(&[3u64, 5, 10]) } else { last_n };
+    let n_peers = if competing || deep || lagging || lagfork { 2 } else { rng.range(1, 3) as usize };
     let epochs = rng.range(4, 20) as usize;
     let pbits = *rng.pick(&[6u32, 12, 24]);
     let plan = if rng.chance(2, 3) { legal_plan(rng, epochs, 2, 8, pbits) } else { flat_plan(epochs, rng.range(3, 9), rng.range(1, 30)) };
@@ -125,22 +130,24 @@ fn history(out: &mut Out, rng: &mut Rng, consensus: &Consensus, idx: u64, honest
     if total < 12 { return; }
     let act = *rng.pick(&[0u64, 0, 1, 2]);
     let main = SynChain::new_with_activation(plan, total, 1, act);
-    let fork_at = if deep { rng.range(1, (total / 3).max(2)) } else { rng.range(1, total - 4) };
+    let lag_top = (total / 2).max(10);
+    let fork_at = if deep { rng.range(1, (total / 3).max(2)) } else if lagfork { lag_top - 3 } else { rng.range(1, total - 4) };
     // deep: the first peer is proven well above the fork point, the second one brings a heavier branch that shares
     // none of the remembered last-N headers (the documented long-fork stop after a second, from-genesis proof)
     let deep_height = (fork_at + last_n + rng.range(2, 6)).min(total - 2);
-    let fork_extra = if deep { (deep_height - fork_at) + rng.range(2, 12) } else { rng.range(2, (total - fork_at).min(40)) };
+    let fork_extra = if deep { (deep_height - fork_at) + rng.range(2, 12) } else if lagfork { rng.range(6, 12) } else { rng.range(2, (total - fork_at).min(40)) };
     let fork = main.fork(fork_at, fork_extra, 99, None);
     let chains = vec![Rc::new(main), Rc::new(fork)];
     let mut c = Client::new(&chains[0], consensus, last_n, n_peers as u32);
     let store0 = store_term(&c);
     let mut sims: Vec<PeerSim> = (0..n_peers).map(|k| {
-        let on_fork = if lagging { false } else if competing || deep { k == 1 } else { !honest_only && rng.chance(1, 4) };
+        let on_fork = if lagging || lagfork { false } else if competing || deep { k == 1 } else { !honest_only && rng.chance(1, 4) };
         let ch = if on_fork { 1 } else { 0 };
         let tip = chains[ch].tip();
         let h0 = if deep { if k == 0 { deep_height } else { tip } } else if competing { fork_at } else { rng.range(3, tip.min(3 + tip / 2)) };
         let h0 = if lagging { let top = (chains[0].tip() / 2).max(8); if k == 0 { top } else { top - 2 } } else { h0 };
-        PeerSim { id: PeerIndex::new(k + 1), chain: ch, height: h0, connected: false, honest: honest_only || competing || lagging || rng.chance(2, 3) }
+        let h0 = if lagfork { if k == 0 { lag_top } else { lag_top - 2 } } else { h0 };
+        PeerSim { id: PeerIndex::new(k + 1), chain: ch, height: h0, connected: false, honest: honest_only || competing || lagging || lagfork || rng.chance(2, 3) }
     }).collect();
     let mut now = T0 + 10_000;
     let steps = rng.range(6, 30);
@@ -158,6 +165,8 @@ fn history(out: &mut Out, rng: &mut Rng, consensus: &Consensus, idx: u64, honest
 
     let mut script: std::collections::VecDeque<(usize, u64, u64)> = if lagging {
         vec![(1, 0, 0), (1, 4, 0), (1, 101, 0), (1, 101, 0), (0, 0, 0), (0, 4, 0), (0, 100, 0), (0, 100, 0), (0, 4, 1), (0, 4, 1), (1, 4, 3), (1, 2, 0), (1, 101, 0), (1, 101, 0)].into()
+    } else if lagfork {
+        vec![(1, 0, 0), (1, 4, 0), (1, 101, 0), (1, 101, 0), (0, 0, 0), (0, 4, 0), (0, 100, 0), (0, 100, 0), (1, 200, 0), (1, 4, 0), (1, 2, 0), (1, 101, 0), (1, 101, 0)].into()
     } else { Default::default() };
     let total_steps = steps + script.len() as u64 + if honest_only { 30 } else { 0 };
     for step in 0..total_steps {
@@ -196,6 +205,12 @@ fn history(out: &mut Out, rng: &mut Rng, consensus: &Consensus, idx: u64, honest
             // proofs mostly when a request is outstanding
             if r >= 8 && c.state(pid).map(|s| s.get_prove_request().is_none()).unwrap_or(true) && !rng.chance(1, 8) { rng.range(2, 7) } else { r }
         };
+        if choice == 200 {
+            // the peer's node reorganised to the other branch (nothing reaches the client yet)
+            sims[k].chain = 1;
+            sims[k].height = chains[1].tip();
+            continue;
+        }
         let (term, o, name): (String, Outcome, &'static str) = match choice {
             0 => {
                 sims[k].connected = true;
@@ -431,7 +446,7 @@ fn history(out: &mut Out, rng: &mut Rng, consensus: &Consensus, idx: u64, honest
     let mut kv: Vec<String> = kinds.iter().map(|(k, v)| format!("{}={}", k, v)).collect();
     kv.sort();
     let descr = format!("history of {} events over {} peers (last_n {}, main chain {} blocks, fork at {} +{}), events: {}", events.len(), n_peers, last_n, total, fork_at, fork_extra, kv.join(","));
-    let tag = if deep { "deep-fork" } else if competing { "competing-children" } else if honest_only { "honest" } else { "mixed" };
+    let tag = if deep { "deep-fork" } else if lagfork { "lagging-fork" } else if competing { "competing-children" } else if honest_only { "honest" } else { "mixed" };
     out.case(&format!("history-{}", idx), &["history", tag], &model, &impl_v, oracle, &descr);
     intern_reset(false);
 }
